@@ -165,6 +165,11 @@ func genC11(rng *rand.Rand, n int) SrvCase {
 }
 
 func checkC11(r *Result, rng *rand.Rand, thorough bool) {
+	traces, doneTraces := collectTraces(200)
+	defer func() {
+		doneTraces()
+		compareSrv(r, "srv", *traces)
+	}()
 	ncases, n := 400, 12
 	if thorough {
 		ncases, n = 4000, 20
